@@ -330,7 +330,8 @@ class PercentFormatString:
                             yield from specifier.accept(pair.value, ctx)
                     else:
                         non_literals.append(pair.key)
-                keys_left = cs_map.keys() - seen_keys
+                # specifiers without a mapping key ("%s") format the whole mapping
+                keys_left = cs_map.keys() - seen_keys - {None}
                 if keys_left and not non_literals:
                     # iterate over cs_map so the keys appear in template order
                     ordered_keys = [key for key in cs_map if key in keys_left]
